@@ -50,6 +50,46 @@ Proof.
 Qed.
 
 (* ---------- the write, end to end ---------- *)
+(* the submitted message reaches the driver, what the driver publishes reaches the client's two connections, the
+   client takes it in and the system is quiet again *)
+Lemma client_write_delivered s c e d vn a m :
+  one_client s c (d_name d) -> one_device s e d -> sy_cls s = [c] ->
+  cl_in_ctl c = [] -> cl_in_blob c = [] -> e <> cl_ctl c -> e <> cl_blob c ->
+  dget cd_name (d_name d) (cl_mirror c) <> None ->
+  submit_msg (cl_mirror c) (d_name d) vn a = Some m -> client_msg (d_name d) (wire m) ->
+  Forall (fun m' => exists vn', about (d_name d) vn' m') (pubs (snd (from_client d (wire m)))) ->
+  exists c',
+    sy_cls (sstep s (SWrite 0 (d_name d) vn a)) = [c'] /\
+    sy_devs (sstep s (SWrite 0 (d_name d) vn a)) = sy_devs (set_dev s e (fst (from_client d (wire m)))) /\
+    sy_r (sstep s (SWrite 0 (d_name d) vn a)) = sy_r s /\
+    cl_mirror c' = feed (cl_mirror c) (delivered_stream (pubs (snd (from_client d (wire m))))) /\
+    cl_in_ctl c' = [] /\ cl_in_blob c' = [] /\
+    cl_net c' = cl_net c /\ cl_ctl c' = cl_ctl c /\ cl_blob c' = cl_blob c.
+Proof.
+  intros O Od Cls I1 I2 H1 H2 Kc Sm Cm Ab.
+  destruct (from_client d (wire m)) as [d' tr] eqn:Ef. cbn [fst snd] in *.
+  set (s0 := set_dev s e d').
+  destruct (enq_all_inboxes (pubs tr) c) as (Ic & Ib & Im & In_ & Ictl & Iblob). rewrite I1 in Ic. rewrite I2 in Ib. cbn [app] in Ic, Ib.
+  pose proof O as [Cls' Net Clients Diff Pc Pb].
+  cbn [sstep]. rewrite Cls. cbn [nth_error]. rewrite Sm, Net.
+  change (cascade FUEL s (wire m) (Some (cl_ctl c))) with (cascade (S (S 62)) s (wire m) (Some (cl_ctl c))).
+  rewrite (cascade_client_msg 62 s c e d (wire m) O Od Cm H1 H2 ltac:(rewrite Ef; exact Ab)). rewrite Ef. cbn [fst snd]. cbv zeta. fold s0.
+  remember (if pubs tr then s0 else set_client s0 (enq_all c (pubs tr))) as s1 eqn:Es1.
+  assert (Cls1 : sy_cls s1 = [enq_all c (pubs tr)]).
+  { rewrite Es1. destruct (pubs tr) eqn:Ep; [cbn [enq_all fold_left]; unfold s0, set_dev; cbn [sy_cls]; exact Cls|reflexivity]. }
+  assert (Sd1 : sy_devs s1 = sy_devs s0) by (rewrite Es1; destruct (pubs tr); reflexivity).
+  assert (Sr1 : sy_r s1 = sy_r s) by (rewrite Es1; destruct (pubs tr); reflexivity).
+  change FUEL with (S 63).
+  destruct (settle_one 63 s1 (enq_all c (pubs tr)) (d_name d) Cls1 ltac:(rewrite In_; exact Net) ltac:(rewrite Im; exact Kc)
+              ltac:(rewrite Ic; apply forall_map_wire, forall_filter, Ab) ltac:(rewrite Ib; apply forall_map_wire, forall_filter, Ab)) as [R|(E1 & E2 & R)];
+    rewrite R.
+  - eexists. split; [reflexivity|]. split; [exact Sd1|]. split; [exact Sr1|]. cbn [cl_mirror with_mirror cl_in_ctl cl_in_blob with_inboxes cl_net cl_ctl cl_blob].
+    split; [|split; [reflexivity|split; [reflexivity|split; [congruence|split; [exact Ictl|exact Iblob]]]]].
+    rewrite Im, Ic, Ib. rewrite filter_taken_blob. unfold delivered_stream. rewrite feed_app. reflexivity.
+  - exists (enq_all c (pubs tr)). split; [exact Cls1|]. split; [exact Sd1|]. split; [exact Sr1|]. rewrite Im. rewrite Ic in E1. rewrite Ib in E2.
+    split; [|split; [rewrite Ic; exact E1|split; [rewrite Ib; exact E2|split; [congruence|split; [exact Ictl|exact Iblob]]]]]. unfold delivered_stream. rewrite E1, E2. reflexivity.
+Qed.
+
 Theorem client_write_end_to_end s c e d dn vn a m :
   one_client s c dn -> one_device s e d -> d_name d = dn -> sy_cls s = [c] ->
   cl_in_ctl c = [] -> cl_in_blob c = [] -> e <> cl_ctl c -> e <> cl_blob c ->
@@ -64,33 +104,12 @@ Theorem client_write_end_to_end s c e d dn vn a m :
 Proof.
   intros O Od Hn Cls I1 I2 H1 H2 D (mi0 & S0 & Em & K0) Sm Cm Nb. subst dn.
   destruct (step_synced d (OFromClient (wire m)) mi0 D S0 I) as (D1 & S1 & N1 & Ab). cbn [step] in *.
-  destruct (from_client d (wire m)) as [d' tr] eqn:Ef. cbn [fst snd] in *.
-  set (s0 := set_dev s e d').
-  assert (Fd0 : find_dev s0 e = Some d').
-  { unfold s0, find_dev, set_dev. cbn [sy_devs]. destruct Od as [_ Od]. rewrite Od. cbn [map find fst]. rewrite N.eqb_refl. cbn [fst find]. rewrite N.eqb_refl. reflexivity. }
   assert (Kc : dget cd_name (d_name d) (cl_mirror c) <> None).
   { rewrite Em. unfold nm. rewrite (dget_map cd_name nm_dev (fun _ => eq_refl)). destruct (dget cd_name (d_name d) mi0); [discriminate|contradiction]. }
-  destruct (enq_all_inboxes (pubs tr) c) as (Ic & Ib & Im & In_ & Ictl & Iblob). rewrite I1 in Ic. rewrite I2 in Ib. cbn [app] in Ic, Ib.
-  pose proof O as [Cls' Net Clients Diff Pc Pb].
-  (* the whole operation as one equation *)
-  assert (FIN : exists c', sy_cls (sstep s (SWrite 0 (d_name d) vn a)) = [c'] /\ sy_devs (sstep s (SWrite 0 (d_name d) vn a)) = sy_devs s0 /\
-                           cl_mirror c' = feed (cl_mirror c) (delivered_stream (pubs tr)) /\ cl_in_ctl c' = [] /\ cl_in_blob c' = []).
-  { cbn [sstep]. rewrite Cls. cbn [nth_error]. rewrite Sm, Net.
-    change (cascade FUEL s (wire m) (Some (cl_ctl c))) with (cascade (S (S 62)) s (wire m) (Some (cl_ctl c))).
-    rewrite (cascade_client_msg 62 s c e d (wire m) O Od Cm H1 H2 ltac:(rewrite Ef; exact Ab)). rewrite Ef. cbn [fst snd]. cbv zeta. fold s0.
-    remember (if pubs tr then s0 else set_client s0 (enq_all c (pubs tr))) as s1 eqn:Es1.
-    assert (Cls1 : sy_cls s1 = [enq_all c (pubs tr)]).
-    { rewrite Es1. destruct (pubs tr) eqn:Ep; [cbn [enq_all fold_left]; unfold s0, set_dev; cbn [sy_cls]; exact Cls|reflexivity]. }
-    assert (Sd1 : sy_devs s1 = sy_devs s0) by (rewrite Es1; destruct (pubs tr); reflexivity).
-    change FUEL with (S 63).
-    destruct (settle_one 63 s1 (enq_all c (pubs tr)) (d_name d) Cls1 ltac:(rewrite In_; exact Net) ltac:(rewrite Im; exact Kc)
-                ltac:(rewrite Ic; apply forall_map_wire, forall_filter, Ab) ltac:(rewrite Ib; apply forall_map_wire, forall_filter, Ab)) as [R|(E1 & E2 & R)];
-      rewrite R.
-    - eexists. split; [reflexivity|]. split; [exact Sd1|]. cbn [cl_mirror with_mirror cl_in_ctl cl_in_blob with_inboxes].
-      split; [|split; reflexivity]. rewrite Im, Ic, Ib. rewrite filter_taken_blob. unfold delivered_stream. rewrite feed_app. reflexivity.
-    - exists (enq_all c (pubs tr)). split; [exact Cls1|]. split; [exact Sd1|]. rewrite Im. rewrite Ic in E1. rewrite Ib in E2.
-      split; [|split; [rewrite Ic; exact E1|rewrite Ib; exact E2]]. unfold delivered_stream. rewrite E1, E2. reflexivity. }
-  destruct FIN as (c' & F1 & F2 & F3 & F4 & F5).
+  destruct (client_write_delivered s c e d vn a m O Od Cls I1 I2 H1 H2 Kc Sm Cm Ab) as (c' & F1 & F2 & _ & F3 & F4 & F5 & _).
+  destruct (from_client d (wire m)) as [d' tr] eqn:Ef. cbn [fst snd] in *.
+  assert (Fd0 : find_dev (set_dev s e d') e = Some d').
+  { unfold find_dev, set_dev. cbn [sy_devs]. destruct Od as [_ Od]. rewrite Od. cbn [map find fst]. rewrite N.eqb_refl. cbn [fst find]. rewrite N.eqb_refl. reflexivity. }
   exists c'. split; [exact F1|]. split; [unfold find_dev; rewrite F2; exact Fd0|]. split; [|split; assumption].
   exists (feed mi0 (pubs tr)). split; [exact S1|]. split.
   - rewrite F3, Em. unfold delivered_stream.
